@@ -231,7 +231,7 @@ def c09_2(cx):
     c = cx.one_call(iv, IN + r"insert_value::inner$", "inner call")
     cx.flow(iv, cx.arg(c, 4), [r"^interned::is_reusable\(.*\$4\.durability\)?\)$"], [r"^const:1$"], "`reusable` = is_reusable(value.durability)", c)
     st = [x for x in cx.stores(b) if re.search(r"\.durability$", x[1])]
-    mx = [x for x in st if "max" in x[2]]
+    mx = [x for x in st if "cmp::max" in x[2]]
     cx.check(len(mx) >= 1, "re-interning records max(old durability, stamp.durability)", (mx or st or [(None,)])[0][0], {"stores": [x[2][:120] for x in st]}, key="durability-max", body=b)
     for s, po, vo in mx:
         cx.flow(b, vo, [r"^std::cmp::max(::<durability::Durability>)?\(.*\.durability, zalsa_local::ZalsaLocal::active_query\(\$3\)@Some\.0\.1\.durability\)$"], [r"cmp::min"], "durability := max(old, active query's durability)", s)
